@@ -86,7 +86,7 @@ NEEDS = {
 out = subprocess.run([sys.executable, os.path.join(HERE, "tools", "seedcheck.py"), "--all-props"], capture_output=True, text=True).stdout
 cur = None; fired = {}
 for l in out.splitlines():
-    m = re.match(r'^(C\d+-[A-D]): ', l)
+    m = re.match(r'^(C\d+-[A-F]): ', l)
     if m:
         cur = m.group(1); fired[cur] = []; continue
     m = re.match(r'\s+\[(C\d+) rc=1\] (\S+) VIOLATED (\S+) (\S+)', l)
